@@ -291,6 +291,58 @@ B1_REASONS = {
 }
 
 
+def _effect_without_pos_update(ctx, E, node, f):
+    from .mutate import _stmt_effect
+    selfname = f.params()[0]
+
+    def is_pos_update(s):
+        for x in ast.walk(s):
+            if isinstance(x, ast.Attribute) and x.attr == '_pos' and isinstance(x.ctx, ast.Store):
+                return True
+            if isinstance(x, ast.Call) and ast.unparse(x.func) == 'self._clear':
+                return True
+        return False
+
+    leak = [None]
+
+    def walk(stmts, pending):
+        for s in stmts:
+            if isinstance(s, ast.Return):
+                if pending is not None and leak[0] is None:
+                    leak[0] = pending
+                return None, True
+            if isinstance(s, ast.Raise):
+                return None, True
+            if isinstance(s, ast.If):
+                if is_pos_update(s) and not any(isinstance(x, ast.Return) for x in ast.walk(s)):
+                    pending = None        # `if len(self) != length_before: self._pos = 0`
+                    continue
+                p1, t1 = walk(s.body, pending)
+                p2, t2 = walk(s.orelse, pending)
+                alive = [p for p, t in ((p1, t1), (p2, t2)) if not t]
+                if not alive:
+                    return None, True
+                pending = next((p for p in alive if p is not None), None)
+                continue
+            if isinstance(s, (ast.For, ast.While, ast.With, ast.Try)):
+                p, t = walk(s.body, pending)
+                pending = p if not t else pending
+                continue
+            if is_pos_update(s):
+                pending = None
+                # an effect in the same statement as the update (value, self._pos = ...) is covered
+                continue
+            e = _stmt_effect(ctx, E, node, s, selfname, False)
+            if e is not None:
+                pending = e
+        return pending, False
+    from . import guards as G2
+    p, t = walk(G2.body_wo_doc(f), None)
+    if not t and p is not None and leak[0] is None:
+        leak[0] = p
+    return leak[0]
+
+
 def rule_B1(ctx):
     """Every operation that can change a BitStream's length is covered by stream-level code that updates _pos."""
     m = ctx.m
@@ -310,8 +362,13 @@ def rule_B1(ctx):
         n_eff += 1
         writes_pos = bool(_pos_stores(f)) or any(isinstance(x, ast.Call) and ast.unparse(x.func) == 'self._clear' for x in own_walk(f.node))
         if f.cls in STREAMS and writes_pos:
-            # the update must come after the effect on the normal path: last pos write not before first effectful statement
-            r.ok(f'{c}.{name}', {'instance': f'{c}.{name}', 'handled_by': f.key})
+            # on every path, an effect on self must be followed by a _pos update before the function returns normally
+            leak = _effect_without_pos_update(ctx, E, node, f)
+            if leak is not None:
+                r.fail(f.key, f'{c}.{name}: {norm(leak)[:60]}', f"{name} changes the stream's content on a path that returns without updating _pos "
+                       f"({norm(leak)[:50]}): if the length changed, pos can end up beyond it", loc=f.loc(leak), extra={'props': ['C06', 'C20']})
+            else:
+                r.ok(f'{c}.{name}', {'instance': f'{c}.{name}', 'handled_by': f.key})
         elif f.cls in STREAMS and name in ('clear',):
             r.ok(f'{c}.{name}')
         elif name == 'clear' and any(g.cls in STREAMS for g in m.winner(c, '_clear')):
